@@ -331,6 +331,7 @@ fn enum_base() -> Scenario {
         strays: vec![],
         stateless_reset: false,
         rebinds: vec![],
+        attacks: vec![],
     }
 }
 
